@@ -498,3 +498,8 @@ def check(cx):
                "writes dirty pages back without forcing the log first (advisory C02.5), so this per-statement force is what keeps an "
                "open transaction's records ahead of its pages; a statement kind that skips it lets a crash keep uncommitted rows with "
                "nothing in the log to undo them", floor=7)
+
+    # ---- C02.12 (construct shared with C09.4) ---------------------------------------------------------------------------
+    from . import c09
+    cx.include(c09, {"C09.4"}, "C02.12", "shared with C09.4: a rolled-back transaction whose tuples reached the data file is hidden after a restart "
+               "only by the persisted aborted bitmap, which must be loaded with the layout it was written with", floor=4, skip=("drops-large-ids",))
